@@ -188,3 +188,45 @@ Definition lw_ok (st : state) : bool := hv_ok st && ps_ok st.
 
 Fixpoint lw_run (st : state) (evs : list (list Z)) : bool :=
   lw_ok st && match evs with [] => true | ev :: r => lw_run (fst (step st ev)) r end.
+
+(* ------------------------------------------------------------------ level 5: a crash in the middle of PullTract *)
+(* The crash leaves an empty copy that already carries the pulled version.  It is admissible when the target is
+   not a durable host and nobody counts it as pulled at that version: no completed pull to it whose reply is still
+   under way, and no task that has consumed such a reply (a task counts the server as pulled once it is in t_new
+   and the task no longer owns a PullTract for it).  Levels 1-4 (ok_ev, ok_run) are unchanged; level 5 is
+   ok_ev5 = ok_ev 4 or an admissible crash event. *)
+Definition pl_rpc (t : task) (n : Z) : rpc := mk_pull (t_gen t) n (t_blob t) (t_tract t) (t_dv t + 1) (t_ok t).
+Definition owns_b (st : state) (op : Z) (r : rpc) : bool :=
+  existsb (fun e => (p_owner e =? op) && rpc_eqb (p_rpc e) r) (s_pool st).
+Definition pull_ok_b (st : state) (tk : tkt) (v g : Z) : bool :=
+  existsb (fun e => (k_kind (p_rpc e) =? K_PullTract) && (p_st e =? 2) && (hd 0 (p_res e) =? cl_NoError) &&
+                    (k_ts (p_rpc e) =? g) && tk_eqb (tkey (k_blob (p_rpc e)) (k_tract (p_rpc e))) tk && (k_ver (p_rpc e) =? v)) (s_pool st).
+Definition counted_b (st : state) (tk : tkt) (v g : Z) : bool :=
+  existsb (fun t => tk_eqb (tkey (t_blob t) (t_tract t)) tk && (t_dv t + 1 =? v) && (t_phase t =? 2) && zmem g (t_new t) &&
+                    negb (owns_b st (t_op t) (pl_rpc t g))) (s_tasks st).
+Definition crash_safe (st : state) (r : rpc) : bool :=
+  let tk := tkey (k_blob r) (k_tract r) in
+  match tget (s_dtr st) tk with
+  | Some (_, H) => negb (zmem (k_ts r) H) && negb (pull_ok_b st tk (k_ver r) (k_ts r)) && negb (counted_b st tk (k_ver r) (k_ts r))
+  | None => true
+  end.
+Definition crash_ev (st : state) (ev : list Z) : bool :=
+  match ev with
+  | c :: mode :: r =>
+      (c =? 7) && (mode =? 6) &&
+      match parse_rpc r with
+      | Some (rp, _) =>
+          match find_pent (s_pool st) rp 0 with
+          | Some _ => (k_kind rp =? K_PullTract) && negb (stale_pull st rp) && crash_safe st rp
+          | None => false
+          end
+      | None => false
+      end
+  | _ => false
+  end.
+Definition ok_ev5 (st : state) (ev : list Z) : bool := ok_ev 4 st ev || crash_ev st ev.
+Fixpoint ok_run5 (st : state) (evs : list (list Z)) : bool :=
+  match evs with
+  | [] => true
+  | ev :: r => ok_ev5 st ev && ok_run5 (fst (step st ev)) r
+  end.
